@@ -63,13 +63,10 @@ pub fn mk<'a, S: Src>(s: &mut S, h: &'a str) -> Parser<'a> {
 // ---------------------------------------------------------------------------
 // one-step equivalences, generic over the pattern kind
 
-fn step_strip_trim<'a, 'p, S: Src, P: Pattern<'p>>(s: &mut S, p: Parser<'a>, pat: P) {
+fn step_strip<'a, 'p, S: Src, P: Pattern<'p>>(s: &mut S, p: Parser<'a>, pat: P) {
     let rem = p.remainder();
     chk!(s, ok_iff_some(p.strip_prefix(pat), string::strip_prefix(rem, pat)), "C14.strip_prefix.eq_string_strip_prefix");
     chk!(s, ok_iff_some(p.strip_suffix(pat), string::strip_suffix(rem, pat)), "C14.strip_suffix.eq_string_strip_suffix");
-    chk!(s, rem_eq(p.trim_start_matches(pat).remainder(), string::trim_start_matches(rem, pat)), "C14.trim_start_matches.eq_string_trim_start_matches");
-    chk!(s, rem_eq(p.trim_end_matches(pat).remainder(), string::trim_end_matches(rem, pat)), "C14.trim_end_matches.eq_string_trim_end_matches");
-    chk!(s, rem_eq(p.trim_matches(pat).remainder(), string::trim_matches(rem, pat)), "C14.trim_matches.eq_string_trim_matches");
 }
 
 fn step_find_skip<'a, 'p, S: Src, P: Pattern<'p>>(s: &mut S, p: Parser<'a>, pat: P) {
@@ -124,15 +121,15 @@ harness! {
     /// kind=bounded tier=quick bound="valid UTF-8 remainder<=4 bytes, &str pattern<=2 bytes (empty included); Parser::new or with_start_offset(<=1000)"
     #[kani::unwind(8)]
     #[kani::stub(konst_kernel::string::non_char_boundary_panic, crate::hlib::stub_non_char_boundary_panic)]
-    fn c14_strip_trim_matches_str(s) {
+    fn c14_strip_str(s) {
         let hs = BStr::<4>::any(s);
         let ps = BStr::<2>::any(s);
         let (h, pat) = (hs.as_str(), ps.as_str());
         let p = mk(s, h);
-        step_strip_trim(s, p, pat);
+        step_strip(s, p, pat);
         cov!(s, pat.len() == 2 && string::strip_prefix(h, pat).is_some() && h.len() == 4, "C14.cover.strip_prefix_str_ok");
         cov!(s, pat.len() == 1 && string::strip_suffix(h, pat).is_none() && h.len() == 4, "C14.cover.strip_suffix_str_err");
-        cov!(s, pat.len() == 1 && string::trim_matches(h, pat).len() == 1 && h.len() == 4, "C14.cover.trim_matches_str_both_ends");
+        cov!(s, pat.len() == 0 && h.len() == 4, "C14.cover.strip_str_empty_pattern");
     }
 }
 
@@ -140,16 +137,46 @@ harness! {
     /// kind=bounded tier=quick bound="valid UTF-8 remainder<=4 bytes, char pattern (any char); Parser::new or with_start_offset(<=1000)"
     #[kani::unwind(8)]
     #[kani::stub(konst_kernel::string::non_char_boundary_panic, crate::hlib::stub_non_char_boundary_panic)]
-    fn c14_strip_trim_matches_char(s) {
+    fn c14_strip_char(s) {
         let hs = BStr::<4>::any(s);
         let c = s.char();
         let h = hs.as_str();
         let p = mk(s, h);
-        step_strip_trim(s, p, c);
+        step_strip(s, p, c);
         cov!(s, c.len_utf8() == 2 && string::strip_prefix(h, c).is_some() && h.len() == 4, "C14.cover.strip_prefix_char_ok");
-        cov!(s, c.len_utf8() == 1 && string::trim_start_matches(h, c).len() == 1 && h.len() == 4, "C14.cover.trim_start_matches_char");
+        cov!(s, c.len_utf8() == 3 && string::strip_suffix(h, c).is_some() && h.len() == 4, "C14.cover.strip_suffix_char_ok");
     }
 }
+
+macro_rules! c14_trim_matches {
+    ($name:ident, $m:ident, $o:literal) => {
+        harness! {
+            /// kind=bounded tier=quick bound="valid UTF-8 remainder<=4 bytes; &str pattern<=2 bytes (empty included) and char pattern (any char); Parser::new or with_start_offset(<=1000)"
+            #[kani::unwind(8)]
+            #[kani::stub(konst_kernel::string::non_char_boundary_panic, crate::hlib::stub_non_char_boundary_panic)]
+            fn $name(s) {
+                let hs = BStr::<4>::any(s);
+                let h = hs.as_str();
+                let p = mk(s, h);
+                if s.bool() {
+                    let ps = BStr::<2>::any(s);
+                    let pat = ps.as_str();
+                    chk!(s, rem_eq(p.$m(pat).remainder(), string::$m(h, pat)), $o);
+                    cov!(s, pat.len() == 1 && string::$m(h, pat).len() == 1 && h.len() == 4, "C14.cover.trim_matches_str_one_byte_reps");
+                    cov!(s, pat.len() == 2 && string::$m(h, pat).len() == 0 && h.len() == 4, "C14.cover.trim_matches_str_two_reps");
+                    cov!(s, pat.len() == 0 && h.len() == 4, "C14.cover.trim_matches_str_empty_pattern");
+                } else {
+                    let c = s.char();
+                    chk!(s, rem_eq(p.$m(c).remainder(), string::$m(h, c)), $o);
+                    cov!(s, c.len_utf8() == 2 && string::$m(h, c).len() == 0 && h.len() == 4, "C14.cover.trim_matches_char2_two_reps");
+                }
+            }
+        }
+    };
+}
+c14_trim_matches! {c14_trim_start_matches, trim_start_matches, "C14.trim_start_matches.eq_string_trim_start_matches"}
+c14_trim_matches! {c14_trim_end_matches, trim_end_matches, "C14.trim_end_matches.eq_string_trim_end_matches"}
+c14_trim_matches! {c14_trim_matches, trim_matches, "C14.trim_matches.eq_string_trim_matches"}
 
 harness! {
     /// kind=bounded tier=quick bound="valid UTF-8 remainder<=4 bytes, &str needle<=2 bytes (empty included); Parser::new or with_start_offset(<=1000)"
@@ -168,7 +195,7 @@ harness! {
 
 harness! {
     /// kind=bounded tier=quick bound="valid UTF-8 remainder<=4 bytes, char needle (any char); Parser::new or with_start_offset(<=1000)"
-    #[kani::unwind(9)]
+    #[kani::unwind(12)]
     #[kani::stub(konst_kernel::string::non_char_boundary_panic, crate::hlib::stub_non_char_boundary_panic)]
     fn c14_find_skip_char(s) {
         let hs = BStr::<4>::any(s);
@@ -214,21 +241,32 @@ harness! {
 }
 
 harness! {
-    /// kind=bounded tier=quick bound="valid UTF-8 remainder<=4 bytes, char delimiter (any char); flag clear; Parser::new or with_start_offset(<=1000)"
-    #[kani::unwind(9)]
+    /// kind=bounded tier=quick bound="valid UTF-8 remainder<=4 bytes, char delimiter (any char); split, split_keep, split_terminator; flag clear; Parser::new or with_start_offset(<=1000)"
+    #[kani::unwind(12)]
     #[kani::stub(konst_kernel::string::non_char_boundary_panic, crate::hlib::stub_non_char_boundary_panic)]
-    fn c14_split_once_char(s) {
+    fn c14_split_once_fwd_char(s) {
         let hs = BStr::<4>::any(s);
         let c = s.char();
         let h = hs.as_str();
         let p = mk(s, h);
-        if s.bool() {
-            step_split_fwd(s, p, c, 1);
-        } else {
-            step_split_bwd(s, p, c);
-        }
-        cov!(s, c.len_utf8() == 2 && h.len() == 4 && string::find(h, c) == Some(1), "C14.cover.split_char_found");
-        cov!(s, c.len_utf8() == 3 && h.len() == 4 && string::find(h, c).is_none(), "C14.cover.split_char_absent");
+        step_split_fwd(s, p, c, 1);
+        cov!(s, c.len_utf8() == 2 && h.len() == 4 && string::find(h, c) == Some(1), "C14.cover.split_fwd_char_found");
+        cov!(s, c.len_utf8() == 3 && h.len() == 4 && string::find(h, c).is_none(), "C14.cover.split_fwd_char_absent");
+    }
+}
+
+harness! {
+    /// kind=bounded tier=quick bound="valid UTF-8 remainder<=4 bytes, char delimiter (any char); rsplit, rsplit_terminator; flag clear; Parser::new or with_start_offset(<=1000)"
+    #[kani::unwind(12)]
+    #[kani::stub(konst_kernel::string::non_char_boundary_panic, crate::hlib::stub_non_char_boundary_panic)]
+    fn c14_split_once_bwd_char(s) {
+        let hs = BStr::<4>::any(s);
+        let c = s.char();
+        let h = hs.as_str();
+        let p = mk(s, h);
+        step_split_bwd(s, p, c);
+        cov!(s, c.len_utf8() == 2 && h.len() == 4 && string::rfind(h, c) == Some(1), "C14.cover.split_bwd_char_found");
+        cov!(s, c.len_utf8() == 3 && h.len() == 4 && string::rfind(h, c).is_none(), "C14.cover.split_bwd_char_absent");
     }
 }
 
@@ -352,79 +390,112 @@ harness! {
 // the one-shot flag: after `split`/`rsplit`/`split_keep` returned the last piece the remainder is
 // empty and every split operation fails; every other operation acts on the empty remainder
 
+macro_rules! c14_after_last {
+    ($name:ident, $op:ident) => {
+        harness! {
+            /// kind=bounded tier=quick bound="valid UTF-8 string<=4 bytes, char delimiter absent from it: the operation returns the whole remainder, then every split operation once on the exhausted parser"
+            #[kani::unwind(12)]
+            #[kani::stub(konst_kernel::string::non_char_boundary_panic, crate::hlib::stub_non_char_boundary_panic)]
+            fn $name(s) {
+                let hs = BStr::<4>::any(s);
+                let c = s.char();
+                let h = hs.as_str();
+                let mut tmp = [0u8; 4];
+                let absent = ref_find(h.as_bytes(), c.encode_utf8(&mut tmp).as_bytes()).is_none();
+                s.assume(absent);
+                let p0 = mk(s, h);
+                match p0.$op(c) {
+                    Ok((piece, p)) => {
+                        chk!(s, rem_eq(piece, h) && p.remainder().len() == 0, "C14.split.last_piece_is_whole_remainder");
+                        chk!(s, is_exhausted(&p.split(c)), "C14.split.exhausted_after_last_piece");
+                        chk!(s, is_exhausted(&p.rsplit(c)), "C14.rsplit.exhausted_after_last_piece");
+                        chk!(s, is_exhausted(&p.split_keep(c)), "C14.split_keep.exhausted_after_last_piece");
+                        chk!(s, p.split_terminator(c).is_err(), "C14.split_terminator.fails_after_last_piece");
+                        chk!(s, p.rsplit_terminator(c).is_err(), "C14.rsplit_terminator.fails_after_last_piece");
+                    }
+                    Err(_) => chk!(s, false, "C14.split.call_without_delimiter_must_succeed_once"),
+                }
+                cov!(s, h.len() == 4 && c.len_utf8() == 2, "C14.cover.after_last_piece");
+                cov!(s, h.len() == 0, "C14.cover.after_last_piece_empty_input");
+            }
+        }
+    };
+}
+c14_after_last! {c14_after_last_piece_split, split}
+c14_after_last! {c14_after_last_piece_rsplit, rsplit}
+c14_after_last! {c14_after_last_piece_split_keep, split_keep}
+
 harness! {
-    /// kind=bounded tier=quick bound="valid UTF-8 string<=4 bytes, char delimiter absent from it, then every operation once on the exhausted parser (char/&str<=2 byte arguments)"
-    #[kani::unwind(9)]
+    /// kind=bounded tier=quick bound="valid UTF-8 string<=3 bytes without the delimiter ','; exhausted by split, then strip/trim/find_skip/skip/parse operations with a &str<=2 byte argument act on the empty remainder"
+    #[kani::unwind(8)]
     #[kani::stub(konst_kernel::string::non_char_boundary_panic, crate::hlib::stub_non_char_boundary_panic)]
-    fn c14_after_last_piece(s) {
-        let hs = BStr::<4>::any(s);
-        let c = s.char();
+    fn c14_exhausted_other_ops(s) {
+        let hs = BStr::<3>::any(s);
         let h = hs.as_str();
-        s.assume(string::find(h, c).is_none());
+        let absent = ref_find(h.as_bytes(), b",").is_none();
+        s.assume(absent);
         let p0 = mk(s, h);
-        let which = s.u8();
-        s.assume(which < 3);
-        let r0 = match which { 0 => p0.split(c), 1 => p0.rsplit(c), _ => p0.split_keep(c) };
-        match r0 {
-            Ok((piece, p)) => {
-                chk!(s, rem_eq(piece, h) && p.remainder().len() == 0, "C14.split.last_piece_is_whole_remainder");
-                chk!(s, is_exhausted(&p.split(c)), "C14.split.exhausted_after_last_piece");
-                chk!(s, is_exhausted(&p.rsplit(c)), "C14.rsplit.exhausted_after_last_piece");
-                chk!(s, p.split_terminator(c).is_err(), "C14.split_terminator.fails_after_last_piece");
-                chk!(s, p.rsplit_terminator(c).is_err(), "C14.rsplit_terminator.fails_after_last_piece");
+        match p0.split(',') {
+            Ok((_, p)) => {
                 let ps = BStr::<2>::any(s);
                 let pat = ps.as_str();
-                step_strip_trim(s, p, pat);
+                step_strip(s, p, pat);
                 step_find_skip(s, p, pat);
+                chk!(s, p.trim_start_matches(pat).remainder().len() == 0 && p.trim_end_matches(pat).remainder().len() == 0,
+                     "C14.exhausted.remainder_stays_empty");
                 chk!(s, p.trim().remainder().len() == 0 && p.skip(1).remainder().len() == 0 && p.skip_back(1).remainder().len() == 0,
                      "C14.exhausted.remainder_stays_empty");
                 chk!(s, p.parse_u8().is_err() && p.parse_bool().is_err(), "C14.exhausted.parse_fails_on_empty");
+                cov!(s, pat.len() == 0 && h.len() == 3, "C14.cover.exhausted_empty_pattern");
+                cov!(s, pat.len() == 2, "C14.cover.exhausted_two_byte_pattern");
             }
-            Err(_) => chk!(s, false, "C14.split.first_call_without_delimiter_must_succeed"),
+            Err(_) => chk!(s, false, "C14.split.call_without_delimiter_must_succeed_once"),
         }
-        cov!(s, which == 0 && h.len() == 4, "C14.cover.after_last_piece_split");
-        cov!(s, which == 1 && h.len() == 4, "C14.cover.after_last_piece_rsplit");
-        cov!(s, which == 2 && h.len() == 0, "C14.cover.after_last_piece_split_keep_empty_input");
     }
 }
 
 // ---------------------------------------------------------------------------
-// histories mixing front and back operations: one earlier operation, then the one-step clause
+// histories mixing front and back operations: one earlier split / rsplit that found a delimiter
+// (one-shot flag still clear), then the one-step clause for every split operation
 
-harness! {
-    /// kind=bounded tier=quick bound="valid UTF-8 string<=4 bytes, char delimiter (any char): one earlier split / rsplit / trim_start / strip_suffix that succeeds, then every split operation once (same char)"
-    #[kani::unwind(9)]
-    #[kani::stub(konst_kernel::string::non_char_boundary_panic, crate::hlib::stub_non_char_boundary_panic)]
-    fn c14_history_then_split(s) {
-        let hs = BStr::<4>::any(s);
-        let c = s.char();
-        let h = hs.as_str();
-        let p0 = mk(s, h);
-        let which = s.u8();
-        s.assume(which < 4);
-        // earlier operations that leave the one-shot flag clear
-        let p = match which {
-            0 => match p0.split(c) { Ok((_, q)) if string::find(h, c).is_some() => Some(q), _ => None },
-            1 => match p0.rsplit(c) { Ok((_, q)) if string::find(h, c).is_some() => Some(q), _ => None },
-            2 => Some(p0.trim_start()),
-            _ => match p0.strip_suffix(c) { Ok(q) => Some(q), Err(_) => None },
-        };
-        let fwd = s.bool();
-        match p {
-            Some(p) => {
-                if fwd {
-                    step_split_fwd(s, p, c, 1);
-                } else {
-                    step_split_bwd(s, p, c);
+fn step_split_fwd_char<'a, S: Src>(s: &mut S, p: Parser<'a>, c: char) {
+    step_split_fwd(s, p, c, 1)
+}
+
+fn step_split_bwd_char<'a, S: Src>(s: &mut S, p: Parser<'a>, c: char) {
+    step_split_bwd(s, p, c)
+}
+
+macro_rules! c14_history {
+    ($name:ident, $op:ident, $step:ident) => {
+        harness! {
+            /// kind=bounded tier=quick bound="valid UTF-8 string<=4 bytes containing the char delimiter (any char): one earlier split (rsplit), then split/split_keep/split_terminator (front ops) or rsplit/rsplit_terminator (back ops) once each with the same char"
+            #[kani::unwind(12)]
+            #[kani::stub(konst_kernel::string::non_char_boundary_panic, crate::hlib::stub_non_char_boundary_panic)]
+            fn $name(s) {
+                let hs = BStr::<4>::any(s);
+                let c = s.char();
+                let h = hs.as_str();
+                let mut tmp = [0u8; 4];
+                let present = ref_find(h.as_bytes(), c.encode_utf8(&mut tmp).as_bytes()).is_some();
+                s.assume(present);
+                let p0 = mk(s, h);
+                match p0.$op(c) {
+                    Ok((_, p)) => {
+                        $step(s, p, c);
+                        cov!(s, h.len() == 4 && p.remainder().len() == 3 && string::find(p.remainder(), c).is_some(), "C14.cover.history_more_delims_left");
+                        cov!(s, h.len() == 4 && p.remainder().len() == 0, "C14.cover.history_empty_remainder_flag_clear");
+                    }
+                    Err(_) => chk!(s, false, "C14.split.with_delimiter_present_must_succeed"),
                 }
             }
-            None => s.assume(false),
         }
-        cov!(s, which == 0 && !fwd && h.len() == 4, "C14.cover.split_then_back_ops");
-        cov!(s, which == 1 && fwd && h.len() == 4, "C14.cover.rsplit_then_front_ops");
-        cov!(s, which == 3 && fwd && h.len() == 4, "C14.cover.strip_suffix_then_front_ops");
-    }
+    };
 }
+c14_history! {c14_history_split_then_front_ops, split, step_split_fwd_char}
+c14_history! {c14_history_split_then_back_ops, split, step_split_bwd_char}
+c14_history! {c14_history_rsplit_then_front_ops, rsplit, step_split_fwd_char}
+c14_history! {c14_history_rsplit_then_back_ops, rsplit, step_split_bwd_char}
 
 // ---------------------------------------------------------------------------
 // split protocols
@@ -597,7 +668,8 @@ macro_rules! c14_protocol_str {
                 let (h, d) = (hs.as_str(), ds.as_str());
                 s.assume(d.len() > 0);
                 let f = protocol::<_, &str, 4, 2, 7>(s, $op, h, d, d.as_bytes());
-                cov!(s, f.dl == 1 && f.n == 3 && f.last_empty && f.hl == 4 && f.multibyte, "C14.cover.protocol_str_trailing_empty_piece");
+                cov!(s, f.dl == 1 && f.n == 3 && f.last_empty && f.hl == 4, "C14.cover.protocol_str_last_piece_empty");
+                cov!(s, f.dl == 1 && f.n == 3 && f.multibyte && f.hl == 4, "C14.cover.protocol_str_multibyte");
                 cov!(s, f.dl == 2 && f.n == 2 && !f.last_empty && f.hl == 4, "C14.cover.protocol_str_two_pieces");
                 cov!(s, f.n == 1 && f.hl == 0, "C14.cover.protocol_str_empty_input");
                 cov!(s, f.dl == 1 && f.n == 5, "C14.cover.protocol_str_five_pieces");
@@ -614,7 +686,7 @@ macro_rules! c14_protocol_char {
     ($name:ident, $op:expr) => {
         harness! {
             /// kind=bounded tier=quick bound="valid UTF-8 string<=4 bytes, char delimiter (any char), the operation repeated until it fails (<=5 pieces)"
-            #[kani::unwind(9)]
+            #[kani::unwind(12)]
             #[kani::stub(konst_kernel::string::non_char_boundary_panic, crate::hlib::stub_non_char_boundary_panic)]
             fn $name(s) {
                 let hs = BStr::<4>::any(s);
